@@ -228,9 +228,30 @@ func (p *Prog) genFunc(key string) (*FnCtx, error) {
 	for i, t := range c.resTypes {
 		robjs = append(robjs, types.NewVar(fd.End(), p.Pkg, fmt.Sprintf("$res%d", i), t))
 	}
+	// ghost locals: postconditions may name them; zero value at returns where they are not in scope
+	ghostObjs := map[string]types.Object{}
+	if c.contract != nil {
+		for _, g := range c.contract.Ghosts {
+			for id, o := range p.Info.Defs {
+				if o != nil && id.Name == g && id.Pos() >= fd.Body.Pos() && id.End() <= fd.Body.End() {
+					if prev, ok := ghostObjs[g]; !ok || o.Pos() < prev.Pos() {
+						ghostObjs[g] = o
+					}
+				}
+			}
+			if ghostObjs[g] == nil {
+				return nil, fmt.Errorf("contract of %s: ghost local %s not found (stale contract)", key, g)
+			}
+		}
+	}
 	var rstates []*State
 	for k, rs := range c.rets {
 		s := rs.clone()
+		for g, o := range ghostObjs {
+			if _, ok := s.env[o]; !ok {
+				s.env[o] = c.zeroVal(o.Type(), g)
+			}
+		}
 		for i, o := range robjs {
 			if i < len(c.retVals[k]) && c.retVals[k][i] != nil {
 				s.env[o] = c.retVals[k][i]
@@ -254,6 +275,15 @@ func (p *Prog) genFunc(key string) (*FnCtx, error) {
 				}
 			}
 			env := &CEnv{vars: vars, old: c.entry, oldV: c.entryCtr}
+			if c.contract.Pure {
+				// frame: the pointees of pointer parameters are unchanged
+				for _, in := range c.inputs {
+					if pv, ok := in.Val.(*PtrVal); ok {
+						g := valEqTerm(c.entry.cells[pv.Cell], final.cells[pv.Cell])
+						c.obligeNamed(final, "frame."+in.Name, "frame", fd.End(), g, "pure: *"+in.Name+" is unchanged")
+					}
+				}
+			}
 			for k, en := range c.contract.Ensures {
 				for _, ng := range c.clauseGoals(final, en, env) {
 					c.obligeNamed(final, fmt.Sprintf("post.%d%s", k+1, ng.suffix), "post", fd.End(), ng.goal, "postcondition: "+en.Text+ng.desc)
@@ -512,6 +542,9 @@ type OblResult struct {
 	FailCase string            `json:"fail_case,omitempty"`
 	Output   string            `json:"solver_output,omitempty"`
 	Smoke    bool              `json:"smoke,omitempty"`
+	Elems    map[string]string `json:"model_elements,omitempty"`
+	ReplaySrc string           `json:"replay_test_src,omitempty"`
+	NoReplay string            `json:"no_replay_reason,omitempty"`
 }
 
 type FuncResult struct {
@@ -524,6 +557,7 @@ type FuncResult struct {
 	NoMeasure    []string    `json:"loops_without_termination_measure,omitempty"`
 	Error        string      `json:"error,omitempty"`
 	Deferred     string      `json:"deferred,omitempty"`
+	UsedLemmas   []string    `json:"used_lemmas,omitempty"`
 	Trusted      bool        `json:"trusted,omitempty"`
 	Inputs       []string    `json:"inputs,omitempty"`
 	GenTimeS     float64     `json:"gen_time_s"`
@@ -575,7 +609,13 @@ func main() {
 		pool.deadline = t0.Add(time.Duration(*budget * float64(time.Second)))
 	}
 	var ctxs []*FnCtx
-	for _, k := range keys {
+	seenKey := map[string]bool{}
+	for ki := 0; ki < len(keys); ki++ {
+		k := keys[ki]
+		if seenKey[k] {
+			continue
+		}
+		seenKey[k] = true
 		tg := time.Now()
 		var c *FnCtx
 		var err error
@@ -604,6 +644,12 @@ func main() {
 		fr.Uncontracted = sortedSet(c.uncontracted)
 		fr.Externs = sortedSet(c.externUsed)
 		fr.NoMeasure = c.noMeasure
+		fr.UsedLemmas = sortedSet(c.usedLemmas)
+		for _, l := range fr.UsedLemmas {
+			if !seenKey[l] {
+				keys = append(keys, l) // a used lemma is always proved in the same run
+			}
+		}
 		for _, in := range c.inputs {
 			fr.Inputs = append(fr.Inputs, in.Name)
 		}
@@ -689,4 +735,56 @@ func sortedSet(m map[string]bool) []string {
 	}
 	sort.Strings(out)
 	return out
+}
+
+// valEqTerm: structural equality of two values of the same shape (used for frame obligations).
+func valEqTerm(a, b Val) string {
+	switch x := a.(type) {
+	case SV:
+		y, ok := b.(SV)
+		if !ok {
+			return "false"
+		}
+		if x.T == y.T {
+			return "true"
+		}
+		return app("=", x.T, y.T)
+	case *StructVal:
+		y, ok := b.(*StructVal)
+		if !ok {
+			return "false"
+		}
+		var cs []string
+		for _, f := range x.Order {
+			cs = append(cs, valEqTerm(x.F[f], y.F[f]))
+		}
+		return and(cs...)
+	case *SliceVal:
+		y, ok := b.(*SliceVal)
+		if !ok {
+			return "false"
+		}
+		cs := []string{}
+		if x.Len != y.Len {
+			cs = append(cs, app("=", x.Len, y.Len))
+		}
+		if x.off() != y.off() {
+			cs = append(cs, app("=", x.off(), y.off()))
+		}
+		for p, t := range x.Leaves {
+			if t != y.Leaves[p] {
+				cs = append(cs, app("=", t, y.Leaves[p]))
+			}
+		}
+		return and(cs...)
+	case *PtrVal:
+		y, ok := b.(*PtrVal)
+		if !ok || x.Cell != y.Cell {
+			return "false"
+		}
+		return "true"
+	case OpaqueVal:
+		return "true" // untracked state (maps, interfaces): not part of the frame obligation
+	}
+	return "true"
 }
